@@ -1474,7 +1474,7 @@ VARIANTS: List[Variant] = [
 
 META = {
     "design_ref": "DESIGN.md section 3, C16",
-    "technique": "per-kind partial evaluation of the isinstance-dispatch analysers against a reference table of evaluated fields; path-condition check of the loop rules; constant-set evaluation of the safe-callable set; parameter-mutation summaries of the analysers (ownership interpreter)",
+    "technique": "per-kind partial evaluation of the isinstance-dispatch analysers against a reference table of evaluated fields; path-condition check of the loop rules; constant-set evaluation of the safe-callable set; parameter-mutation summaries of the analysers (ownership interpreter); with-statement rule (exceptions swallowed by the context manager); defaults of optional analyser parameters",
     "level_text": ("Decides on the current source, for every ast node kind of the running interpreter, which answers "
                    "has_side_effect / is_blocking can give and which fields they consult, and from that: conservative "
                    "defaults, field coverage for every kind that can be called effect-free, definitions/imports/control "
